@@ -77,6 +77,8 @@ def cases(tier: str, seed: int) -> list[dict]:
         for kind, scheme, dim, et in CONFIGS:
             heavy = kind in ("phasefield", "hyperelastic", "inelastic")
             out.append({"kind": kind, "scheme": scheme, "dim": dim, "et": et, "nops": max(6, nops * 2 // 3) if heavy else nops})
+    for kind, scheme, dim, et in CONFIGS:
+        out.append({"kind": kind, "scheme": scheme, "dim": dim, "et": et, "nops": 3, "script": True})
     for i, c in enumerate(out):
         c["id"] = f"C15-{i:05d}-{c['kind']}-{c['scheme']}-{c['et']}"
         c["index"] = i
@@ -261,6 +263,7 @@ def _run(case, ctx, rng, kind, scheme, dim, et, key0, root):
     nmesh = [1]
     last_lam = [0.0]
     dirty_since_save = [False]
+    at_iter = [None]  # index of the restored iteration the live object currently sits on (no solve / mesh change since)
     nontrivial = [False]
 
     def lam_next():
@@ -274,6 +277,7 @@ def _run(case, ctx, rng, kind, scheme, dim, et, key0, root):
         solve(live, kind)
         last_lam[0] = lam
         dirty_since_save[0] = True
+        at_iter[0] = None
         for s in shadow:
             s["later_solves"] += 1
         return "step"
@@ -291,6 +295,23 @@ def _run(case, ctx, rng, kind, scheme, dim, et, key0, root):
         }
         if len(shadow) != i:
             ctx.require("iteration-count", False, key0 + "/Niter", Niter=live.Niter, saved=len(shadow))
+        if at_iter[0] is not None:
+            # saving again right after a restore (e.g. to export it elsewhere) must store the restored iteration, internal
+            # variables included: the new entry is held against the ORIGINAL observation, and inherits its reference continuation
+            o = shadow[at_iter[0]]
+            k = key0 + "/Set_Iter+Save_Iter"
+            e, where = cmp_results(entry["results"], o["results"])
+            ctx.check("resave-results", e, 1e-10, k + "/results", where=where, restored=o["i"], history=list(history))
+            worst, where = 0.0, ""
+            for kf, v in o["got"].items():
+                if kf in ("newtonIter", "timeIter", "list_norm_r", "Niter", "convIter"):
+                    continue  # convergence bookkeeping of the step that produced the iteration, not state
+                g = entry["got"].get(kf)
+                e = max([cmp_val((g or {}).get(kk), vv) for kk, vv in v.items()] + [0.0]) if isinstance(v, dict) else cmp_val(g, v)
+                if not (e <= worst):
+                    worst, where = e, kf
+            ctx.check("resave-content", worst, 0.0, k + "/content", where=where, restored=o["i"], history=list(history))
+            entry["clone"], entry["probe_lam"], entry["probe_ref"] = o["clone"], o["probe_lam"], o["probe_ref"]
         shadow.append(entry)
         dirty_since_save[0] = False
         return "Save_Iter"
@@ -299,7 +320,12 @@ def _run(case, ctx, rng, kind, scheme, dim, et, key0, root):
         live.folder = folders[int(rng.integers(len(folders)))]
         return "folder="
 
+    forced = [None]  # scripted cases choose the iteration themselves
+
     def pick():
+        if forced[0] is not None and forced[0] < len(shadow):
+            i, forced[0] = forced[0], None
+            return shadow[i]
         return shadow[int(rng.integers(len(shadow)))]
 
     def probe(simu, s):
@@ -327,6 +353,7 @@ def _run(case, ctx, rng, kind, scheme, dim, et, key0, root):
             nontrivial[0] = True
         imesh[0] = s["imesh"]
         dirty_since_save[0] = True
+        at_iter[0] = s["i"]
 
     def op_set_iter():
         if not shadow:
@@ -379,6 +406,7 @@ def _run(case, ctx, rng, kind, scheme, dim, et, key0, root):
         # Result(iter=i) is documented to move the simulation to iteration i
         imesh[0] = s["imesh"]
         dirty_since_save[0] = True
+        at_iter[0] = s["i"]
         if s["later_solves"]:
             nontrivial[0] = True
         return f"Result({name},iter={s['i']})"
@@ -477,8 +505,16 @@ def _run(case, ctx, rng, kind, scheme, dim, et, key0, root):
                 history.append("build")
                 op_step()
                 history.append("step")
-                for step in range(case["nops"]):
-                    op = menu[int(rng.integers(len(menu)))]
+                # scripted prefix: every restore path at least once per configuration (several meshes, restore an early
+                # iteration after later solves, save again right after a restore, read, query, save / load), then random
+                script = [(op_save, None), (op_step, None), (op_save, None), (op_mesh, None), (op_save, None), (op_set_iter, 0), (op_save, None),
+                          (op_step, None), (op_save, None), (op_set_iter, 2), (op_set_iter, 3), (op_get, 1), (op_result_iter, 0), (op_folder, None),
+                          (op_save, None), (op_save_load, None), (op_set_iter, 1)] if case.get("script") else []
+                for step in range(case["nops"] + len(script)):
+                    if step < len(script):
+                        op, forced[0] = script[step]
+                    else:
+                        op = menu[int(rng.integers(len(menu)))]
                     n_before = sum(1 for c in ctx.checks if not c["ok"])
                     name = op()
                     history.append(name)
